@@ -16,7 +16,8 @@ PROOFS = ["proofs/AntsStepsProofs.v", "models/AntsSteps.v", "proofs/RaceAntsProo
           "proofs/RaceAntsInv.v", "proofs/RaceAntsCases.v",
           # D21: decision / outcome / counting invariants of the step model (all runs)
           "proofs/AntsStepsDecide.v", "proofs/AntsStepsOutcome.v", "proofs/AntsStepsCount.v", "proofs/AntsStepsCountN.v",
-          "proofs/AntsStepsProv.v", "proofs/AntsStepsProv2.v", "proofs/AntsStepsKeep.v"]
+          "proofs/AntsStepsProv.v", "proofs/AntsStepsProv2.v", "proofs/AntsStepsKeep.v",
+          "proofs/AntsStepsRefine.v", "proofs/AntsStepsRefine2.v"]
 FT_ENV = dict(os.environ, GOMAXPROCS="2")
 
 # timeouts (ns) of the Send ops of a case, by global Send index: pairwise distinct, no small sum of
